@@ -216,9 +216,53 @@ def shrinking_pass(ctx):
             return
 
 
+def self_opposite_pass(ctx):
+    """a many-valued reference that is its own opposite (friends, neighbours), objects that may hold themselves in it, at
+    any position: after `x.delete()` no other object holds x, x holds nobody, and the others' remaining friends are the
+    ones they had"""
+    from pyecore import ecore as E
+    for k in range(40 if ctx.quick() else 800):
+        rng = common.sub_rng(ctx.seed, 'C07', 'self-opposite', k)
+        P = E.EClass('P')
+        fr = E.EReference('friends', P, upper=-1, unique=k % 3 != 2)
+        P.eStructuralFeatures.extend([E.EAttribute('name', E.EString), fr])
+        fr.eOpposite = fr
+        objs = [P(name=f'o{i}') for i in range(rng.randint(3, 5))]
+        for _ in range(rng.randint(3, 8)):
+            a, b = rng.choice(objs), rng.choice(objs)
+            if not any(v is b for v in a.friends):
+                a.friends.append(b)
+        x = rng.choice(objs)
+        before = {o.name: sorted(v.name for v in o.friends if v is not x) for o in objs if o is not x}
+        held = [o.name for o in objs if o is not x and any(v is x for v in o.friends)]
+        pos = [i for i, v in enumerate(x.friends) if v is x]
+        ctx.evaluations += 1
+        ctx.count('self-opposite/' + ('self-loop' if pos else 'no-self-loop'))
+        ctx.nontriv(('self-opposite', k))
+        rep = {'self_opposite': k, 'holders': held, 'self_loop_at': pos, 'friends_of_deleted': len(x.friends)}
+        try:
+            x.delete()
+        except Exception as e:
+            ctx.violate({'clause': 'delete-raised', 'trigger': 'none', 'self_opposite': True},
+                        f'delete-raised: delete() of an object of a symmetric relation raised {type(e).__name__}: {e}', rep)
+            return
+        left = [o.name for o in objs if o is not x and any(v is x for v in o.friends)]
+        after = {o.name: sorted(v.name for v in o.friends) for o in objs if o is not x}
+        if left or len(x.friends):
+            ctx.violate({'clause': 'dangling', 'trigger': 'none', 'self_opposite': True},
+                        f'dangling: after delete() of an object of a symmetric relation (it held itself at {pos} of {rep["friends_of_deleted"]}): '
+                        f'still held by {left}, still holds {len(x.friends)}', rep)
+            return
+        if after != before:
+            ctx.violate({'clause': 'frame', 'trigger': 'none', 'self_opposite': True},
+                        f'frame: the friends of the others changed beyond losing the deleted object: {before} -> {after}', rep)
+            return
+
+
 def run(ctx):
     common.use_repo()
     derived_pass(ctx)
+    self_opposite_pass(ctx)
     evolving_pass(ctx)
     shrinking_pass(ctx)
     from . import crossworld
